@@ -19,7 +19,7 @@ use std::{
 
 use aranya_crypto::{policy::CmdId, BaseId, DeviceId};
 use aranya_policy_vm::{
-    ActionContext, ActionDef, CommandContext, CommandDef, ConstStruct, ConstValue,
+    ActionContext, ActionDef, CodeMap, CommandContext, CommandDef, ConstStruct, ConstValue,
     ExitReason, Fact, FactDef, FactKey, FactKeyList, FactValue, FactValueList, Field, HashableValue,
     Identifier, Instruction, KVPair, Label, LabelType, Machine, MachineError, MachineErrorType,
     MachineIO, MachineIOError, MachineStack, MachineStatus, Meta, Module, ModuleData, ModuleV0,
@@ -1158,6 +1158,19 @@ fn parse_setup(lines: &[String], bt: &mut BytesTab) -> Result<Setup, String> {
                     s.machine.command_defs.insert(CommandDef { name, persistence: Persistence::Persistent, attributes: vec![], fields: items });
                 }
             }
+            "cmap" if t.len() >= 2 => {
+                let text = String::from_utf8(vh::unhex(t[1]).ok_or_else(bad)?).map_err(|_| bad())?;
+                let mut cm = CodeMap::new(text);
+                for e in &t[2..] {
+                    let p: Vec<usize> = e.split(':').filter_map(|x| x.parse().ok()).collect();
+                    if p.len() != 3 || p[1] > p[2] {
+                        return Err(bad());
+                    }
+                    // unsorted entries are refused by the code map itself
+                    let _ = cm.map_instruction(p[0], aranya_policy_vm::ast::Span::new(p[1], p[2]));
+                }
+                s.machine.codemap = Some(cm);
+            }
             "glob" if t.len() == 3 => {
                 let v = value_of(t[2], bt).and_then(|v| const_of(&v)).ok_or_else(bad)?;
                 s.machine.globals.insert(ident(t[1].parse().map_err(|_| bad())?), v);
@@ -1366,6 +1379,31 @@ fn codec_token(machine: &Machine, ctx: &CommandContext, instr: Option<&Instructi
     }
 }
 
+/// `RunState::source_location()` at the current pc: the same code-map lookup the VM performs while
+/// building a `MachineError` (`CodeMap::span_from_instruction`, `SpannedText::start_linecol`, `as_str`)
+fn record_loc(rec: &mut Recorder, rs: &aranya_policy_vm::RunState<'_, AdvIo>) {
+    match vh::catch(AssertUnwindSafe(|| rs.source_location())) {
+        Err(msg) => {
+            rec.line("loc", "panic");
+            rec.count("loc:PANIC");
+            rec.oracle_fail(format!("PANIC in RunState::source_location at pc={}: {msg}", rs.pc()));
+            rec.panics.push(format!("source_location: pc={}: {msg}", rs.pc()));
+        }
+        Ok(None) => {
+            rec.line("loc", "loc=-");
+            rec.count("loc:none");
+        }
+        Ok(Some(s)) => {
+            // "at row R col C:\n\t<text>"
+            let head = s.lines().next().unwrap_or("");
+            let nums: Vec<&str> = head.trim_end_matches(':').split(' ').collect();
+            let ans = if nums.len() == 5 { format!("loc={}:{}", nums[2], nums[4]) } else { format!("loc=?{head}") };
+            rec.line("loc", ans);
+            rec.count("loc:some");
+        }
+    }
+}
+
 fn instr_name(i: &Instruction) -> String {
     let mut bt = BytesTab::default();
     enc_instr(i, &mut bt).split(' ').next().unwrap().to_string()
@@ -1466,6 +1504,11 @@ fn run_case(rec: &mut Recorder, setup_lines: &[String], steps: Steps, fdefs: &[(
                 break;
             }
         }
+    }
+    if machine.codemap.is_some() && !rec.current_case_lines().last().map_or(false, |l| l == "loc") {
+        let panicked = rec.panics.len();
+        let _ = panicked;
+        record_loc(rec, &rs);
     }
     rec.count_n("steps-executed", executed as u64);
     if executed >= 3 {
@@ -1728,6 +1771,9 @@ fn run_entry_case(rec: &mut Recorder, setup_lines: &[String], entry_toks: &[Stri
         rec.nontrivial(fnv(&format!("{}|{req}", setup_lines.join("\n"))));
     }
     rec.line(req, real);
+    if machine.codemap.is_some() {
+        record_loc(rec, &rs2);
+    }
 }
 
 type FDefs = Vec<(usize, Vec<(usize, TypeKind)>, Vec<(usize, TypeKind)>)>;
@@ -1782,6 +1828,42 @@ fn gen_setup(r: &mut Rng, entry: bool) -> (Vec<String>, FDefs, Option<Vec<String
     let mut prog: Vec<Instruction> = vec![];
     let target_len = 1 + g.r.below(24) as usize;
     g.plen = target_len;
+    // ---- code map (a third of the machines): empty table / first entry > 0 / gaps / beyond the
+    //      program; spans inside the text, empty at its very end, or outside it; empty text
+    if g.r.chance(1, 3) {
+        let tlen = match g.r.below(6) {
+            0 => 0,
+            1 => 1,
+            _ => g.r.below(40) as usize,
+        };
+        let text: Vec<u8> = (0..tlen).map(|_| if g.r.chance(1, 6) { b'\n' } else { b'a' + g.r.below(26) as u8 }).collect();
+        let mut entries: Vec<String> = vec![];
+        let n = match g.r.below(5) {
+            0 => 0,
+            _ => g.r.below(6) as usize,
+        };
+        let mut ip = match g.r.below(4) {
+            0 => 0,
+            1 => 1 + g.r.below(4) as usize,
+            2 => target_len + g.r.below(3) as usize,
+            _ => g.r.below(target_len as u64 + 1) as usize,
+        };
+        for _ in 0..n {
+            let (a, b) = match g.r.below(8) {
+                0 => (tlen, tlen),
+                1 => (0, 0),
+                2 => (tlen, tlen + 1 + g.r.below(3) as usize),
+                3 => (0, tlen),
+                _ => {
+                    let a = g.r.below(tlen as u64 + 1) as usize;
+                    (a, a + g.r.below((tlen - a) as u64 + 1) as usize)
+                }
+            };
+            entries.push(format!("{ip}:{a}:{b}"));
+            ip += 1 + g.r.below(5) as usize;
+        }
+        lines.push(format!("cmap {} {}", vh::hex(&text), entries.join(" ")).trim_end().to_string());
+    }
     // ---- entry call: definitions, label, arguments
     let mut entry_req: Option<Vec<String>> = None;
     if entry {
@@ -1914,7 +1996,7 @@ fn check_from_module(rec: &mut Recorder, lines: &[String]) {
             fact_defs: m.fact_defs.iter().cloned().collect(),
             struct_defs: m.struct_defs.iter().cloned().collect(),
             enum_defs: vec![],
-            codemap: None,
+            codemap: m.codemap.clone(),
             globals: m.globals.clone(),
         }),
     };
